@@ -65,6 +65,7 @@ def normalise_program(trees: Dict[str, ast.Module], pkgs: Set[str]) -> None:
             ho.explicit_super(t)
             ho.format_calls(t)
             ho.function_values(t)
+            ho.inline_single_use_genexps(t)
             ho.fuse_genexps(t)
             ho.yield_from_genexp(t)
             ho.bool_indexed_pairs(t)
@@ -125,6 +126,9 @@ def normalise_program(trees: Dict[str, ast.Module], pkgs: Set[str]) -> None:
             ho.copy_propagation(t)
             ho.nonneg_clamp(t)
             ho.fuse_comp_temps(t)
+            ho.flag_loops(t)
+            ho.inline_loop_iter_temps(t)
+            ho.drop_dead_pure_stores(t)
             ho.tail_return_to_break(t)
             ho.hoist_next_in_tests(t)
             ho.loop_target_unpack(t)
@@ -145,6 +149,7 @@ def normalise_program(trees: Dict[str, ast.Module], pkgs: Set[str]) -> None:
         _next_sentinel(t)
         _return_temp(t)
         ast.fix_missing_locations(t)
+        ho.distinct_loop_lines(t)
 
 
 # ---------------------------------------------------------------------------
@@ -1719,11 +1724,22 @@ class _Helper:
                 return None
             out[params[0]] = receiver
             params = params[1:]
-        if any(isinstance(a, ast.Starred) for a in call.args) or any(k.arg is None for k in call.keywords):
+        va = self.node.args.vararg.arg if self.node.args.vararg else None
+        cargs = list(call.args)
+        if va is not None:
+            # f(a, b, *rest): the positional parameters take plain arguments, the remainder must be exactly one starred plain expression
+            if any(isinstance(a, ast.Starred) for a in cargs[:len(params)]) or len(cargs) != len(params) + 1 or not isinstance(cargs[-1], ast.Starred) \
+                    or not isinstance(cargs[-1].value, (ast.Name, ast.Attribute)):
+                return None
+            out[va] = cargs[-1].value
+            cargs = cargs[:-1]
+        if any(isinstance(a, ast.Starred) for a in cargs) or any(k.arg is None for k in call.keywords):
             return None
-        if len(call.args) > len(params):
+        if len(cargs) > len(params):
             return None
-        for p, a in zip(params, call.args):
+        for q_name, q_expr in getattr(self, "qualify", {}).items():
+            out[q_name] = q_expr
+        for p, a in zip(params, cargs):
             out[p] = a
         for k in call.keywords:
             if k.arg in out or k.arg not in params + self.kwonly:
@@ -1744,8 +1760,21 @@ def _eligible(fn: ast.FunctionDef, nested: bool = False, private_class: bool = F
     if not nested and ((not fn.name.startswith("_") and not private_class) or (fn.name.startswith("__") and fn.name.endswith("__"))):
         return False
     a = fn.args
-    if a.vararg or a.kwarg:
+    if a.kwarg:
         return False
+    if a.vararg:
+        # *rest is accepted when the function only hands it on as *rest (the caller's own starred argument takes its place)
+        vn = a.vararg.arg
+        pars = {}
+        for n in ast.walk(fn):
+            for c in ast.iter_child_nodes(n):
+                pars[id(c)] = n
+        for n in ast.walk(fn):
+            if isinstance(n, ast.Name) and n.id == vn:
+                if not (isinstance(n.ctx, ast.Load) and isinstance(pars.get(id(n)), ast.Starred) and isinstance(pars.get(id(pars[id(n)])), ast.Call)):
+                    return False
+        if a.kwonlyargs:
+            return False
     if nested and fn.decorator_list:
         return False
     if nested:
@@ -1884,12 +1913,14 @@ def _returns_in_loops(stmts: List[ast.stmt]) -> bool:
 
 
 class _RetToBreak(ast.NodeTransformer):
-    def __init__(self, sink):
+    def __init__(self, sink, once: bool = True):
         self.sink = sink
+        self.once = once
 
     def visit_Return(self, n: ast.Return):
         b = ast.copy_location(ast.Break(), n)
-        b._once_exit = True  # leaves the synthetic Once block, not a loop of the program
+        if self.once:
+            b._once_exit = True  # leaves the synthetic Once block, not a loop of the program
         return list(self.sink(n.value)) + [b]
 
     def visit_FunctionDef(self, n):
@@ -1988,7 +2019,7 @@ def _tail_convert(stmts: List[ast.stmt], sink) -> Optional[List[ast.stmt]]:
             new = copy.copy(st)
             nb: List[ast.stmt] = []
             for b in st.body:
-                r = _RetToBreak(sink).visit(b)
+                r = _RetToBreak(sink, once=False).visit(b)  # this break leaves the helper's own loop: a loop of the program
                 nb.extend(r if isinstance(r, list) else [r])
             new.body = nb
             new.orelse = rest
@@ -2219,6 +2250,8 @@ class _Scope:
         f = call.func
         if isinstance(f, ast.Name) and f.id in self.by_name:
             return self.by_name[f.id], None
+        if isinstance(f, ast.Attribute) and isinstance(f.value, ast.Name) and f"{f.value.id}.{f.attr}" in self.by_name:
+            return self.by_name[f"{f.value.id}.{f.attr}"], None
         if isinstance(f, ast.Attribute) and isinstance(f.value, ast.Name):
             base = f.value.id
             for (c, n), h in self.by_class.items():
@@ -2296,6 +2329,19 @@ def _inline_helpers(mod: str, tree: ast.Module, all_helpers, trees, pkgs: Set[st
                     h = all_helpers[src_mod].get((None, a.name))
                     if h is not None and h.free <= top:
                         by_name[a.asname or a.name] = h
+            # `from ._private import extensions` ... extensions.helper(..): the helper's own module-level names are written alias.name
+            for a in st.names:
+                sub = f"{src_mod}.{a.name}" if src_mod else a.name
+                if sub in all_helpers and sub != mod and sub in trees:
+                    alias = a.asname or a.name
+                    their_top = _top_names(trees[sub])
+                    for (c_, n_), h in all_helpers[sub].items():
+                        if c_ is not None or not (h.free <= their_top):
+                            continue
+                        h2 = _Helper(h.node, h.kind, h.cls, h.module, owner=h.owner)
+                        h2.qualify = {fr: ast.Attribute(value=ast.Name(id=alias, ctx=ast.Load()), attr=fr, ctx=ast.Load()) for fr in h.free}
+                        h2.free = set()
+                        by_name[f"{alias}.{n_}"] = h2
     changed = False
 
     def process_function(fn: ast.FunctionDef, cls_name: Optional[str], enclosing: List[ast.FunctionDef], visible_nested: Dict[str, _Helper]) -> None:
